@@ -1339,6 +1339,9 @@ class SymEval:
                     expanded.extend(v[3])
                 elif k == "**" and v[0] == "dict" and v[1] and all(kk[0] == "const" and isinstance(kk[1], str) for kk, _ in v[1]):
                     expanded.extend((kk[1], vv) for kk, vv in v[1])
+                elif k == "**" and v[0] == "ite" and _kw_literal(v) is not None:
+                    # f(**(d1 if c else d2)) with two literal keyword dictionaries of the same keys: each keyword picked by the condition
+                    expanded.extend(_kw_literal(v))
                 else:
                     expanded.append((k, v))
             kwargs = expanded
@@ -2138,6 +2141,21 @@ def _search_loop(loop: ast.For, after: ast.stmt):
     ast.copy_location(ret, loop)
     ast.fix_missing_locations(ret)
     return ret
+
+
+def _kw_literal(v: Term):
+    """[(name, value)] if v is a literal keyword dictionary - {"a": x} / dict(a=x) - or a conditional choice between two with the same
+    names (then each value is the conditional choice), else None."""
+    if v[0] == "dict" and v[1] and all(kk[0] == "const" and isinstance(kk[1], str) for kk, _ in v[1]):
+        return [(kk[1], vv) for kk, vv in v[1]]
+    if v[0] == "call" and v[1] == "dict" and not v[2] and v[3] and all(kk != "**" for kk, _ in v[3]):
+        return list(v[3])
+    if v[0] == "ite":
+        a, b = _kw_literal(v[2]), _kw_literal(v[3])
+        if a is not None and b is not None and sorted(k for k, _ in a) == sorted(k for k, _ in b):
+            db = dict(b)
+            return [(k, T.mk_ite(v[1], x, db[k])) for k, x in a]
+    return None
 
 
 def _without_continue(body):
